@@ -688,9 +688,10 @@ package pfcp
 
 // reqOK(m): a request the UPF originates (go-upf only sends Session Report Requests)
 //@ pred reqOK(m message.Message) = m != nil && typeis(m, *message.SessionReportRequest) && m.(*message.SessionReportRequest) != nil &&
-//@      m.(*message.SessionReportRequest).Header != nil && m.(*message.SessionReportRequest).Header.Type == 56
+//@      m.(*message.SessionReportRequest).Header != nil && m.(*message.SessionReportRequest).Header.Type == 56 &&
+//@      hdrOf(m) == m.(*message.SessionReportRequest).Header
 
-//@ pred srvCfg(s *PfcpServer) = s != nil && s.cfg != nil && s.cfg.Pfcp != nil && s.rxTrans != nil && s.txTrans != nil
+//@ pred srvCfg(s *PfcpServer) = s != nil && s.cfg != nil && s.cfg.Pfcp != nil && s.rxTrans != nil && s.txTrans != nil && s.cfg.Pfcp.MaxRetrans < 255
 
 //@ func (rx *RxTransaction) startTimer() (t *time.Timer)
 //@   requires rx != nil
@@ -1259,3 +1260,47 @@ package pfcp
 //@   serves C09 C07 C05
 //@   at call handleSessionReportResponse:
 //@     assert [same] arg1 == addr && iface(arg0) == msg && arg2 == req
+
+// ---------------------------------------------------------------------------------------------
+// The event loop (C06, C09, C07).  One iteration handles one report, one datagram or one timer expiry; the invariant
+// srvInv holds between iterations.  A request is dispatched only when no transaction with its key
+// "<source address>-<sequence number>" exists, and from then on one does ([once]); a duplicate is answered from the
+// stored response by RxTransaction.recv and never reaches a handler.  A response is dispatched only together with
+// the outstanding request of the same key, which is retired first ([matched]).
+// Entry assumptions: A-RCV (datagrams queued by receiver() carry their source address; reports queued by the data
+// plane hold no nil entries), MaxRetrans < 255 (uint8 arithmetic of the retention window).
+//@ pred srvPre(s *PfcpServer) = srvCfg(s) && s.driver != nil && s.rnodes != nil && rxWF(s) && txWF(s) && s.txSeq < 1<<24 &&
+//@      nodeInv(s.lnode) && nodesWF(s) && linked(s) && registered(s)
+
+//@ func (s *PfcpServer) main(wg *sync.WaitGroup)
+//@   requires s != nil && srvPre(s) && wg != nil
+//@   modifies *
+//@   serves C06 C09 C08 C07
+//@   loop for():
+//@     invariant [inv] s != nil && srvInv(s)
+//@   at call Add:
+//@     fold srvWF(s)
+//@   at call ServeReport:
+//@     assume [A-RCV] forall i int :: 0 <= i && i < len(arg0.Reports) ==> arg0.Reports[i] != nil
+//@   at call Parse:
+//@     unfold srvWF(s)
+//@   after call Parse:
+//@     assume [A-RCV]    rcvPkt.RemoteAddr != nil
+//@     assume [A-PARSED] ret1 == nil ==> parsedWF(ret0)
+//@   at call recv#1:
+//@     fold srvWF(s)
+//@   at call reqDispacher:
+//@     assert [once]  !ok && trID == trKey(rcvPkt.RemoteAddr, hdrOf(msg).SequenceNumber) && trID in s.rxTrans &&
+//@                    s.rxTrans[trID].seq == hdrOf(msg).SequenceNumber && s.rxTrans[trID].raddr == rcvPkt.RemoteAddr
+//@     assert [args]  arg0 == msg && arg1 == rcvPkt.RemoteAddr
+//@   at call rspDispacher:
+//@     fold srvWF(s)
+//@     assert [matched] ok && arg2 == req && !(trID in s.txTrans) && arg0 == msg && arg1 == rcvPkt.RemoteAddr
+//@   at call handleTimeout#1:
+//@     unfold srvWF(s)
+//@   after call handleTimeout#1:
+//@     fold srvWF(s)
+//@   at call handleTimeout#2:
+//@     unfold srvWF(s)
+//@   after call handleTimeout#2:
+//@     fold srvWF(s)
